@@ -345,6 +345,55 @@ def _is_cell_count(txt, lst):
     return txt.strip("()") == "%s.size" % lst or txt in ("%s.size()" % lst, "(%s.size())" % lst)
 
 
+def _prefix_sum_by_loop(prog, fn, e):
+    """e reads V.back() of a local vector V that is filled as a running sum: V starts with 0 and one unconditional statement of a
+    loop over the whole cell list appends V.back() + (number of nodes of that cell)"""
+    from ..model import def_chain, facts_at
+    fi = prog.index(fn)
+    backs = [x for d_ in def_chain(fn, e, depth=4) for x in walk(d_) if x.get("k") == "CXXMemberCallExpr" and x.get("callee", "").endswith("::back") and strip(call_obj(x) or {}).get("k") == "DeclRefExpr"]
+    if not backs:
+        return False
+    vd = strip(call_obj(backs[0]))["ref"].get("did")
+    plist = [p_ for p_ in fn["params"] if "vector" in p_["t"] and "cell" in p_["t"]]
+    if len(plist) != 1:
+        return False
+    muts = [x for x in walk(fn["body"]) if x.get("k") == "CXXMemberCallExpr" and strip(call_obj(x) or {}).get("k") == "DeclRefExpr" and strip(call_obj(x))["ref"].get("did") == vd
+            and x.get("callee", "").split("::")[-1] in ("push_back", "emplace_back", "insert", "erase", "pop_back", "clear", "resize", "assign", "emplace", "operator[]", "at")]
+    subs = [x for x in walk(fn["body"]) if x.get("k") == "CXXOperatorCallExpr" and x.get("op") == "[]" and any(y.get("k") == "DeclRefExpr" and (y.get("ref") or {}).get("did") == vd for y in walk(x["c"][1]))]
+    subs_w = [x for x in subs if (fi.parent.get(id(x), (None, None))[0] or {}).get("op") in ("=", "+=", "-=") and (fi.parent.get(id(x), (None, None))[1] in (0, "0") or True) and (fi.parent[id(x)][0]["c"][0] is x)]
+    pushes = [x for x in muts if x.get("callee", "").split("::")[-1] in ("push_back", "emplace_back")]
+    if len(muts) != len(pushes) or subs_w or len(pushes) != 2:
+        return False
+    first, second = sorted(pushes, key=lambda x: fi.order[id(x)])
+    a0 = strip(call_args(first)[0])
+    while a0.get("k") in ("ImplicitCastExpr", "CXXFunctionalCastExpr", "CStyleCastExpr", "MaterializeTemporaryExpr") and a0.get("c"):
+        a0 = strip(a0["c"][-1])
+    if not (a0.get("k") == "IntegerLiteral" and str(a0.get("v")) == "0") or fi.enclosing(first, ("ForStmt", "CXXForRangeStmt", "WhileStmt", "IfStmt")) is not None:
+        return False
+    loop = fi.enclosing(second, ("CXXForRangeStmt", "ForStmt"))
+    if loop is None or fi.enclosing(loop, ("ForStmt", "CXXForRangeStmt", "WhileStmt", "IfStmt")) is not None:
+        return False
+    if loop.get("k") == "CXXForRangeStmt":
+        if render(loop["range"]).replace(" ", "") != plist[0]["name"]:
+            return False
+    elif not _is_cell_count(_loop_bound_text(fn, loop) or "", plist[0]["name"]):
+        return False
+    if facts_at(fn, fi, second, stop_at=loop):
+        return False
+    arg = strip(call_args(second)[0])
+    while arg.get("k") in ("ParenExpr", "MaterializeTemporaryExpr") and arg.get("c"):
+        arg = strip(arg["c"][0])
+    if not (arg.get("k") == "BinaryOperator" and arg.get("op") == "+"):
+        return False
+    sides = [strip(arg["c"][0]), strip(arg["c"][1])]
+    is_back = lambda x: any(y.get("k") == "CXXMemberCallExpr" and y.get("callee", "").endswith("::back") and strip(call_obj(y) or {}).get("k") == "DeclRefExpr" and strip(call_obj(y))["ref"].get("did") == vd for y in walk(x)) and not any(y.get("k") == "BinaryOperator" for y in walk(x))
+    if is_back(sides[0]) == is_back(sides[1]):
+        return False
+    other = sides[1] if is_back(sides[0]) else sides[0]
+    cs = _chain_callees(fn, other)
+    return "cell::get_node_lst" in cs and any(c.endswith("::size") for c in cs) and not any(y.get("k") == "BinaryOperator" for d_ in def_chain(fn, other, depth=3) for y in walk(d_))
+
+
 def declared_counts(rep, prog, wfile, wcell, warr):
     from ..model import expand_text, def_chain
     # ---- POINTS: the declared count is the last partial sum of the cells' node_lst sizes; the coordinates come from
@@ -362,6 +411,8 @@ def declared_counts(rep, prog, wfile, wcell, warr):
             need = {"a last-element read (.back())": any(c.endswith("::back") for c in callees),
                     "the partial sums of the per-cell counts": any(c.startswith("partial_sum_vector") or c.startswith("mesh_writer::partial_sum_vector") or c.startswith("std::partial_sum") for c in callees),
                     "cell::get_node_lst().size()": "cell::get_node_lst" in callees and any(c.endswith("::size") for c in callees)}
+            if not all(need.values()) and need["a last-element read (.back())"] and _prefix_sum_by_loop(prog, wfile, call_args(ts[0])[0]):
+                need = {}
             why += ["the declared number of points is not derived from %s" % k for k, v in need.items() if not v]
     wp = [c for c in walk(wfile["body"]) if is_call(c) and c.get("callee", "").startswith("mesh_writer::write_point_data")]
     if len(wp) != 1 or "cell::get_flat_node_coord_lst" not in _chain_callees(wfile, call_args(wp[0])[-1]):
@@ -552,7 +603,10 @@ def rebase_every_cell(rep, prog):
             loops = [l for l, _s, _c in fi.ancestors(c) if l.get("k") in ("ForStmt", "WhileStmt")]
             loop_conds = [l.get("cond") for l in loops if isinstance(l.get("cond"), dict)]
             extra = []
-            for a_, t_ in facts_at(fn, fi, c):
+            # only a condition evaluated per cell - inside the loop over the cells - can pick some cells; a condition around the whole
+            # loop (the writer's own `rebase` option) compacts all of them or none
+            all_loops = [l for l, _s, _c in fi.ancestors(c) if l.get("k") in ("ForStmt", "WhileStmt", "CXXForRangeStmt", "DoStmt")]
+            for a_, t_ in facts_at(fn, fi, c, stop_at=all_loops[-1] if all_loops else None):
                 if any(render(a_).replace(" ", "") in render(lc).replace(" ", "") or render(a_).replace(" ", "") in render(__import__("sc3dlint.model", fromlist=["expand"]).expand(fn, lc)).replace(" ", "") for lc in loop_conds):
                     continue
                 extra.append((a_, t_))
